@@ -246,7 +246,7 @@ func (w *World) verifyFunc(u *Unit, name string) (ex *Exec, err error) {
 		sig = ex.Info.Defs[fd.Name].Type().(*types.Signature)
 	}
 	st.frames = []*Frame{{sig: sig}}
-	ex.alloc(st)
+	ex.entryAlloc = ex.alloc(st)
 	st.assume(gt(ex.alloc(st), intLit(0)))
 	// parameters
 	var entry []*Val
@@ -485,6 +485,35 @@ func (ex *Exec) atExit(e *State, fs *FuncSpec, u *Unit, rets []*Val, sig *types.
 		}
 		if !callerHolds {
 			ex.oblige(e, "lock-released", key, pos, tFalse, nil)
+		}
+	}
+	// a struct built by a literal in this function and returned from it must
+	// have the fields its type contract declares nonnil
+	for i, r := range rets {
+		if r == nil || r.Term == nil || i >= sig.Results().Len() {
+			continue
+		}
+		base, isPtr := derefType(sig.Results().At(i).Type())
+		if !isPtr {
+			continue
+		}
+		ts := ex.typeSpecFor(base)
+		if ts == nil || len(ts.NonNil) == 0 {
+			continue
+		}
+		stT, ok := base.Underlying().(*types.Struct)
+		if !ok {
+			continue
+		}
+		lit := ex.readField(e, r.Term, base, "$lit", types.Typ[types.Bool])
+		for j := 0; j < stT.NumFields(); j++ {
+			f := stT.Field(j)
+			if !ts.NonNil[f.Name()] || !isRefLike(f.Type()) {
+				continue
+			}
+			fv := ex.readField(e, r.Term, base, f.Name(), f.Type())
+			goal := implies(and(gt(r.Term, intLit(0)), ge(r.Term, ex.entryAlloc), lit), gt(fv, intLit(0)))
+			ex.oblige(e, "nonnil-init", shortType(base)+"."+f.Name(), pos, goal, nil)
 		}
 	}
 	if fs != nil {
